@@ -5,7 +5,7 @@ import z3
 from z3 import And, Or, Not, Implies, If, IntVal, BoolVal, Const, Function, Length, Select, ForAll, Empty
 
 from pyvc.rtver import RtContract, Rope, as_rope, native_namespace, model_text
-from pyvc.symx import Val, I, B, SeqI, NONE, Tup, StrLit, TextV, Opaque, OutOfSubset, LoopSpec, VC
+from pyvc.symx import Val, I, B, SeqI, NONE, Tup, StrLit, TextV, Opaque, OutOfSubset, LoopSpec, VC, ArrList
 from pyvc import runtime
 
 nl = Function('nl', I, I)            # nl(i): number of line breaks in text[0:i)
@@ -51,7 +51,8 @@ class MapIndexC(RtContract):
         # the two result lists hold ints only: typed as Seq(Int) right after their initialisation to []
         def after(ex, s, st):
             if isinstance(s, ast.Assign) and isinstance(s.value, ast.List) and not s.value.elts and isinstance(s.targets[0], ast.Name):
-                st.env[s.targets[0].id] = Empty(SeqI)
+                # held positionally (array Int -> Int + length): index-quantified invariants are stable on arrays
+                st.env[s.targets[0].id] = ArrList([z3.Array(f'{s.targets[0].id}_0', I, I)], IntVal(0))
         ex.after_stmt = after
 
     def roles(self, cx):
@@ -76,11 +77,11 @@ class MapIndexC(RtContract):
         def inv(ex, st):
             i = st.ghost['i']
             L, C = st.env[Ln], st.env[Cn]
-            yield 'lengths', And(Length(L) == i, Length(C) == i)
+            yield 'lengths', And(L.n == i, C.n == i)
             yield 'line-counter', st.env[lv] == 1 + nl(i)
             yield 'column-counter', st.env[cv] == i - 1 - lastnl(i)
-            yield 'lines', ForAll([j], Implies(And(0 <= j, j < i), L[j] == line_of(cx, j)))
-            yield 'columns', ForAll([j], Implies(And(0 <= j, j < i), C[j] == col_of(cx, j)))
+            yield 'lines', ForAll([j], Implies(And(0 <= j, j < i), Select(L.arrs[0], j) == line_of(cx, j)))
+            yield 'columns', ForAll([j], Implies(And(0 <= j, j < i), Select(C.arrs[0], j) == col_of(cx, j)))
             yield 'lastnl-bound', lastnl(i) < i
 
         def havoc(ex, st):
@@ -97,9 +98,12 @@ class MapIndexC(RtContract):
             return
         L, C = st.ret.items
         j = Const('j', I)
-        yield 'lengths', And(Length(L) == cx.N, Length(C) == cx.N)
-        yield 'line = 1 + line breaks before', ForAll([j], Implies(And(0 <= j, j < cx.N), L[j] == line_of(cx, j)))
-        yield 'column = 1 + offset in line', ForAll([j], Implies(And(0 <= j, j < cx.N), C[j] == col_of(cx, j)))
+        if not (isinstance(L, ArrList) and isinstance(C, ArrList)):
+            yield 'returns the two lists it built', BoolVal(False)
+            return
+        yield 'lengths', And(L.n == cx.N, C.n == cx.N)
+        yield 'line = 1 + line breaks before', ForAll([j], Implies(And(0 <= j, j < cx.N), Select(L.arrs[0], j) == line_of(cx, j)))
+        yield 'column = 1 + offset in line', ForAll([j], Implies(And(0 <= j, j < cx.N), Select(C.arrs[0], j) == col_of(cx, j)))
 
     def replay(self, cx, ex, m):
         text, N = model_text(cx, m)
